@@ -538,6 +538,23 @@ def r4_result(ctx, chk, rule="C07.4", order_matters=True):
         chk.undecided(rule, f.where(ret), "return value `%s` not recognised" % src(val))
         return
     chk.ok(rule, f.where(ret), "result is sorted ascending: %s" % sorted_by if order_matters else "result order: %s" % sorted_by)
+    # `R = []; for x in V: if <test>: R.append(x)` is the comprehension [x for x in V if <test>]
+    if isinstance(compr, ast.List) and not compr.elts and isinstance(val, ast.Name):
+        R = val.id
+        loops = [n for n in cfg.statements() if isinstance(n, ast.For) and isinstance(n.target, ast.Name)
+                 and any(isinstance(c, ast.Call) and isinstance(c.func, ast.Attribute) and c.func.attr == "append" and isinstance(c.func.value, ast.Name) and c.func.value.id == R
+                         for c in ast.walk(n))]
+        if len(loops) == 1 and not loops[0].orelse:
+            lp = loops[0]
+            tests, body = [], lp.body
+            while len(body) == 1 and isinstance(body[0], ast.If) and not body[0].orelse:
+                tests.append(body[0].test)
+                body = body[0].body
+            if len(body) == 1 and isinstance(body[0], ast.Expr) and isinstance(body[0].value, ast.Call) and isinstance(body[0].value.func, ast.Attribute) \
+                    and body[0].value.func.attr == "append" and len(body[0].value.args) == 1:
+                compr = ast.ListComp(elt=body[0].value.args[0], generators=[ast.comprehension(target=lp.target, iter=lp.iter, ifs=tests, is_async=0)])
+                ast.copy_location(compr, lp)
+                ast.fix_missing_locations(compr)
     # filter form
     if isinstance(compr, (ast.ListComp, ast.GeneratorExp, ast.SetComp)) and len(compr.generators) == 1:
         gen = compr.generators[0]
